@@ -70,20 +70,13 @@ Theorem C02_refuted_narrow : refutes src_NarrowCond tgt_NarrowCond "NarrowCond" 
 Proof. exact narrow_cond_refuted. Qed.
 Theorem C02_refuted_narrow_shift : refutes src_NarrowShift tgt_NarrowShift "NarrowShift" [([("a", 139); ("b", 234)], 1%nat)].
 Proof. exact narrow_shift_refuted. Qed.
-(* <C02-boolop-value> *)
-Theorem C02_refuted_boolop_value : refutes src_OrValue tgt_OrValue "OrValue" [([("a", 8); ("b", 14)], 1%nat)].
-Proof. exact boolop_value_refuted. Qed.
-(* </C02-boolop-value> *)
-(* <C02-cmp-rhs> *)
-Theorem C02_refuted_cmp_rhs : refutes src_CmpRhs tgt_CmpRhs "CmpRhs" [([("a", 13); ("b", 0)], 1%nat)].
-Proof. exact cmp_rhs_refuted. Qed.
-(* </C02-cmp-rhs> *)
-(* <C02-portname> *)
-Theorem C02_refuted_portname :
-  (exists e, elaborate tgt_PortName 200 "PortName" = inl e) /\
-  match tgt_PortName with m :: _ => tv_block src_PortName m = false | [] => False end.
-Proof. exact portname_refuted. Qed.
-(* </C02-portname> *)
+(* C02-boolop-value: repaired in /repo, switched by fixes/C02_switch.py *)
+(* C02-cmp-rhs: repaired in /repo, switched by fixes/C02_switch.py *)
+Theorem C02_repaired_cmp_rhs : match tgt_CmpRhs with m :: _ => tv_block src_CmpRhs m = true | [] => False end.
+Proof. exact cmp_rhs_repaired. Qed.
+(* C02-portname: repaired in /repo, switched by fixes/C02_switch.py *)
+Theorem C02_repaired_portname : match tgt_PortName with m :: _ => tv_block src_PortName m = true | [] => False end.
+Proof. exact portname_repaired. Qed.
 
 Print Assumptions C02_expr_sound.
 Print Assumptions C02_expr_exact.
@@ -93,6 +86,5 @@ Print Assumptions C02_block_sound.
 Print Assumptions C02_comb_block_sound.
 Print Assumptions C02_refuted_narrow.
 Print Assumptions C02_refuted_narrow_shift.
-Print Assumptions C02_refuted_boolop_value.
-Print Assumptions C02_refuted_cmp_rhs.
-Print Assumptions C02_refuted_portname.
+Print Assumptions C02_repaired_cmp_rhs.
+Print Assumptions C02_repaired_portname.
